@@ -161,11 +161,16 @@ CLAIMS = {
         "post-filtered search). Theorems: C10_reserved_never_shown, C10_reserved_not_settable, C10_namespace_not_settable, "
         "C10_point_read_is_own, C10_namespace_selector, C10_write_frame_insert/_delete/_update/_batchDeleteIds/_batchDeleteFilter/"
         "_bulkInsert/_bulkLoad (a write of tenant B leaves every read of tenant A unchanged, colliding local ids included), "
-        "C10_filter_blind_to_reserved + C10_reserved_filter_refused_* (client filters cannot see the server-owned keys; fix 7ce87e7), C10_search_sound (every result is the caller's: id range, stored "
+        "C10_noninterference (over WHOLE histories of Insert/BulkInsert/Delete/UpdateMetadata/Query/BulkQuery/BatchDelete-by-ids by any "
+        "tenants, what a tenant observes equals what it observes with the others' requests removed; unwinding lemmas handle_view / "
+        "handle_respects in Lemmas/TenantNI), C10_filter_blind_to_reserved + C10_reserved_filter_refused_* (client filters cannot see the "
+        "server-owned keys; fix 7ce87e7), C10_search_sound (every result is the caller's: id range, stored "
         "index, namespace, public metadata), C10_search_isolated_partial (isolation when the candidate window covers the collection) "
         "and C10_search_count_leak (the full statement is FALSE: A's result count depends on B's data). Tie: ~45 (quick) random "
         "multi-tenant RPC histories against the REAL kyrodb_server binary (built from the working tree each run) - every answer "
-        "compared with the model - and each history replayed per tenant with the other tenants' requests removed.",
+        "compared with the model - and each history replayed per tenant with the other tenants' requests removed; oracles on the "
+        "answers alone: unauthenticated refused, reserved keys never shown, not-found carries nothing, a namespace selector never finds "
+        "a document last written under another namespace, client filters blind to reserved keys.",
    note="Partial, two known findings (KF-C10-shared-index-post-filter, KF-C10-flush-count). Not modelled: TLS, rate limiting, "
         "Health/Metrics (excluded by the property), timing side channels. Search order computed in the driver (Float, exact on the "
         "generated dyadic coordinates), ties reported.",
